@@ -5,7 +5,7 @@ From LJT Require Import model.SuspendCore model.SuspendMarker model.SuspendHuff 
   proofs.SuspendHuffProofs proofs.SuspendScanTheorems proofs.SuspendEncProofs
   model.SuspendBuf proofs.SuspendBufProofs model.SuspendLatch proofs.SuspendLatchProofs
   model.SuspendRefine proofs.SuspendRefineProofs model.SuspendProg proofs.SuspendProgProofs
-  model.SuspendLossless proofs.SuspendLosslessProofs gen.GenSuspend.
+  model.SuspendLossless proofs.SuspendLosslessProofs model.CoefCtl proofs.SuspendCoefCtlProofs gen.GenSuspend.
 Import ListNotations.
 
 (* (1) generic: for a resumable unit parser every partition of the byte string gives the
@@ -135,6 +135,16 @@ Example C09_ex_lossless_restart_inside_imcu_row :
   forallb (fun cs => if list_eq_dec (list_eq_dec Z.eq_dec) (lossless_out (run_lossless ex_lcfg cs (linit_ls ex_lcfg 1)))
                           [[131; 131]; [128; 126]]%Z then true else false) (lsplits ex_lbytes) = true.
 Proof. exact ex_lossless_restart_inside_imcu_row. Qed.
+
+(* (4') encoder, coefficient controller (jccoefct.c compress_data; model/CoefCtl.v of C03): however the entropy encoder
+   suspends (oracle = results of the successive encode_mcu attempts), the resumed jpeg_write_scanlines calls hand it the MCUs
+   of an iMCU row with several MCU rows in raster order, each exactly once; coef_ctr_reset_per_row is read from the source *)
+Theorem C09_coef_controller_resume : forall rows cols fuel orc, length orc < fuel ->
+  drive rows cols coef_ctr_reset_per_row fuel 0 0 orc = Some (raster rows cols).
+Proof. exact drive_raster. Qed.
+Print Assumptions C09_coef_controller_resume.
+Example C09_coef_ctl_needs_the_reset : drive 2 3 false 5 0 0 [true; false] <> Some (raster 2 3).
+Proof. exact coef_ctl_needs_the_reset. Qed.
 
 (* the fast path of decode_mcu, partial: decode_mcu_fast never suspends or fails; when it is not eligible or
    abandons the MCU (marker seen) nothing is committed and decode_mcu is exactly the slow unit covered by
